@@ -17,8 +17,10 @@ key at a time: the console / import paths look the key up before they propose th
   add(id, key, tools)       AddServer with tools [] or [T v1]        update(id, key?, tools)   UpdateServer, key kept or changed
   publish(id)               PublishCurrentServer                      remove(id)                RemoveServer
   spec(T, v)                UpdateToolSpec (version 1 or 2)           unspec(T)                 RemoveToolSpec
-Replica L applies them one by one. Replica R applies the same requests and additionally goes through LoadCompleted behind a
-symbolic prefix of the history (it restarted there and replayed its log up to that point).
+Replica L applies them one by one. Replica R applies the same requests and restarts behind a symbolic prefix of the history:
+either it replayed its log up to that point (the same handler) and got LoadCompleted, or the log was compacted and it loads
+the snapshot the component wrote (build_snapshot -> load_snapshot_record; the records carry the McpServerDo / McpToolSpecDo
+objects themselves, the generated message code and serde_json are outside) and then gets LoadCompleted.
 Oracle: after the history both replicas answer GetServerByKey for each of the three keys, GetServer for both ids (present,
 unique key, tool list of the current value) and GetToolSpec(T) (present, current version, versions) alike, and every request is
 answered alike (Ok / Err) on both.
@@ -35,6 +37,7 @@ from .rseval import Struct, Enum, NONE, Some, Ok, Uninterp
 
 FILES = ["src/mcp/core.rs", "src/mcp/model/mcp.rs", "src/mcp/model/tools.rs", "src/mcp/model/actor_model.rs", "src/mcp/utils.rs", "src/common/constant.rs"]
 KEYS = ["key-a", "key-b"]
+DANGLING = False
 TKEY = Struct("ToolKey", {"namespace": "ns", "group": "g", "tool_name": "t"})
 
 
@@ -57,14 +60,33 @@ def spec_param(version, t):
                                     "version": version, "update_time": 1000 + t, "op_user": Some("u")})
 
 
+class Writer:
+    def __init__(self):
+        self.ty = "WriterAddr"
+        self.records = []
+
+
+class DoWriter:
+    """quick_protobuf::Writer standing in: the message object itself is the 'encoding' (the generated code is outside this obligation)"""
+    def __init__(self, buf):
+        self.ty = "DoWriter"
+        self.buf = buf
+
+
+class DoReader:
+    def __init__(self, data):
+        self.ty = "DoReader"
+        self.data = data
+
+
 def run(tier, seed):
     t0 = time.time()
     n = 3 if tier == "quick" else 4
     ob = {"engine": "smt", "harness": "s07_mcp_component_paths", "encodes_files": FILES, "queries": 0, "solver_s": 0.0, "distinct": 0,
-          "encodes": ["Handler<McpManagerRaftReq>::handle", "Handler<McpManagerReq>::handle (GetServer, GetServerByKey, GetToolSpec)", "Handler<RaftApplyDataRequest>::handle (LoadCompleted)",
+          "encodes": ["Handler<McpManagerRaftReq>::handle", "Handler<McpManagerReq>::handle (GetServer, GetServerByKey, GetToolSpec)", "Handler<RaftApplyDataRequest>::handle (BuildSnapshot, LoadSnapshotRecord, LoadCompleted)", "McpManager::{build_snapshot,load_snapshot_record}", "McpServer / McpServerValue / ToolSpec / McpTool::{to_do,from_do}",
                       "McpManager::{update_server,publish_server,remove_server,update_tool_spec,remove_tool_spec,init_tool_spec_version_ref_map,calculate_tool_ref,add_tool_spec_ref,update_tool_spec_ref}",
                       "McpServer::{update_param,publish,check_valid}", "McpServerValue::update_param", "ToolSpec::update_param", "McpSimpleTool::to_mcp_tool", "ToolSpecUtils::{add_tool_ref_to_map,merge_ref_map,update_server_ref_to_map}"],
-          "bound": "every history of %d committed MCP requests over {AddServer, UpdateServer (key kept / changed, tools [] / [T v1]), PublishCurrentServer, RemoveServer, UpdateToolSpec v1 / v2, RemoveToolSpec} on two servers, "
+          "bound": "every history of %d committed MCP requests over {AddServer, UpdateServer (key kept / changed, tools [] / [T at the oldest or the newest version created so far]), PublishCurrentServer, RemoveServer, UpdateToolSpec (a fresh, increasing version each time: they come from a sequence), RemoveToolSpec} on two servers, "
                    "two unique keys (never shared by two servers), one tool spec; replica R passes LoadCompleted behind a symbolic prefix of the history" % n}
     try:
         prog = load_program(FILES)
@@ -76,6 +98,26 @@ def run(tier, seed):
         it.fn_models["HashSet::new"] = lambda interp, args: []
         it.fn_models["Vec::new"] = lambda interp, args: []
         it.fn_models["Vec::with_capacity"] = lambda interp, args: []
+        # snapshot records carry the message objects (McpServerDo / McpToolSpecDo) themselves; serde_json of the tool function / route rule is the identity
+        it.fn_models["Writer::new"] = lambda interp, args: DoWriter(args[0])
+        it.models[("DoWriter", "write_message")] = lambda interp, recv, args: recv.buf.append(copy.deepcopy(args[0])) or Ok(())
+        it.fn_models["BytesReader::from_bytes"] = lambda interp, args: DoReader(args[0])
+        it.models[("DoReader", "read_message")] = lambda interp, recv, args: Ok(copy.deepcopy(recv.data[0]))
+        it.fn_models["Cow::Borrowed"] = lambda interp, args: args[0]
+        it.fn_models["Cow::Owned"] = lambda interp, args: args[0]
+        it.fn_models["serde_json::to_string"] = lambda interp, args: Ok(args[0])
+        it.fn_models["to_string"] = lambda interp, args: Ok(args[0])
+        it.fn_models["serde_json::from_str"] = lambda interp, args: Ok(args[0])
+        it.fn_models["from_str"] = lambda interp, args: Ok(args[0])
+        it.fn_models["id_to_bin"] = lambda interp, args: args[0]
+        it.models[(None, "into_bytes")] = lambda interp, recv, args: recv
+
+        def writer_do_send(interp, recv, args):
+            msg = args[0]
+            payload = msg.payload if isinstance(msg, Enum) else getattr(msg, "args", None)
+            recv.records.append(payload[0] if isinstance(payload, (list, tuple)) else payload)
+            return ()
+        it.models[("WriterAddr", "do_send")] = writer_do_send
         raft_h = prog.trait_method("McpManager", "handle", "McpManagerRaftReq")
         query_h = prog.trait_method("McpManager", "handle", "McpManagerReq")
         apply_h = prog.trait_method("McpManager", "handle", "RaftApplyDataRequest")
@@ -87,7 +129,8 @@ def run(tier, seed):
         toolv = [z3.BitVec("op%d_tools" % i, 8) for i in range(n)]
         verv = [z3.Bool("op%d_version_2" % i) for i in range(n)]
         restart_at = z3.BitVec("restart_behind_step", 8)
-        covers = {"a server's unique key is changed": 0, "a server drops a tool": 0, "a tool spec is removed": 0, "replica R restarts in the middle of the history": 0}
+        from_snapshot = z3.Bool("restart_from_a_snapshot")
+        covers = {"a server's unique key is changed": 0, "a server drops a tool": 0, "a tool spec is removed": 0, "replica R restarts in the middle of the history": 0, "replica R restarts from a snapshot": 0}
         ops_box = [[]]
 
         def answer_kind(r):
@@ -121,8 +164,10 @@ def run(tier, seed):
             live, rep = new_mgr(), new_mgr()
             rec = ops_box[0] = []
             ra = pick(it, restart_at, list(range(1, n + 1)))
+            snap = it.branch(from_snapshot)
             key_of = {}
             tools_of = {}
+            spec_versions = set()   # versions of T ever created (a superset of the existing ones: good enough to rule out references to versions that never existed)
             for i in range(n):
                 # the first request creates server 1 or the tool spec (servers are symmetric; nothing else has an effect on an empty registry)
                 op = pick(it, opv[i], ["add", "update", "publish", "remove", "spec", "unspec"] if i else ["add", "spec"])
@@ -130,7 +175,15 @@ def run(tier, seed):
                 reqs = None
                 if op in ("add", "update"):
                     key = pick(it, keyv[i], KEYS + [None]) if op == "update" else pick(it, keyv[i], KEYS)
-                    tv = pick(it, toolv[i], [0, 1])
+                    tchoice = pick(it, toolv[i], [0, 1, 2])   # no tool / T at the oldest existing version / T at the newest existing version
+                    ts_ = live["tool_spec_map"].get(TKEY)
+                    existing = sorted(ts_["versions"].keys()) if ts_ is not None else []
+                    # outside the claim (stated): a server that names a tool-spec version that does not exist - see DESIGN.md, observation O-mcp-dangling
+                    if tchoice and not existing and not DANGLING:
+                        raise rseval.PathAbort()
+                    if tchoice == 2 and len(existing) < 2:
+                        raise rseval.PathAbort()   # same as choice 1
+                    tv = 0 if not tchoice else ((existing[0] if tchoice == 1 else existing[-1]) if existing else 1)
                     tools = [simple_tool(tv)] if tv else []
                     # the callers' guarantee: the console / import paths refuse a unique key that another server holds (GetServerByKey before the request is proposed)
                     if key is not None and any(k2 == key for s2, k2 in key_of.items() if s2 != sid):
@@ -159,9 +212,10 @@ def run(tier, seed):
                     key_of.pop(sid, None)
                     tools_of.pop(sid, None)
                 elif op == "spec":
-                    v = 2 if it.branch(verv[i]) else 1
+                    v = i + 1   # versions come from a sequence: fresh and increasing
                     mk = lambda: Enum("McpManagerRaftReq", "UpdateToolSpec", [spec_param(v, i)])
                     rec.append({"op": "spec", "version": v})
+                    spec_versions.add(v)
                 else:
                     mk = lambda: Enum("McpManagerRaftReq", "RemoveToolSpec", [copy.deepcopy(TKEY)])
                     rec.append({"op": "unspec"})
@@ -171,8 +225,20 @@ def run(tier, seed):
                 rec[-1]["answer"] = answer_kind(ra_)
                 if answer_kind(ra_) != answer_kind(rb_):
                     return ("violation", "request %d (%s) is answered %s on the node that applied the log one by one and %s on the node that restarted behind request %d"
-                            % (i + 1, rec[-1]["op"], answer_kind(ra_), answer_kind(rb_), ra), "mcp-answer-differs", ra)
+                            % (i + 1, rec[-1]["op"], answer_kind(ra_), answer_kind(rb_), ra) + (" from a snapshot" if snap else ""), "mcp-answer-differs", ra, snap)
                 if i + 1 == ra:
+                    if snap:
+                        # the log up to here was compacted: the restarted node loads the snapshot the component wrote
+                        w = Writer()
+                        r_ = it._invoke(apply_h, [rep, Enum("RaftApplyDataRequest", "BuildSnapshot", [w]), "ctx"], self_ty="McpManager")
+                        if answer_kind(r_) != "Ok":
+                            return ("violation", "the MCP component cannot build its snapshot", "mcp-snapshot-error", ra, snap)
+                        rep = new_mgr()
+                        for x in w.records:
+                            r_ = it._invoke(apply_h, [rep, Enum("RaftApplyDataRequest", "LoadSnapshotRecord", [copy.deepcopy(x)]), "ctx"], self_ty="McpManager")
+                            if answer_kind(r_) != "Ok":
+                                return ("violation", "the MCP component cannot load a record of its own snapshot", "mcp-snapshot-error", ra, snap)
+                        covers["replica R restarts from a snapshot"] += 1
                     it._invoke(apply_h, [rep, Enum("RaftApplyDataRequest", "LoadCompleted", None), "ctx"], self_ty="McpManager")
                     if ra < n:
                         covers["replica R restarts in the middle of the history"] += 1
@@ -180,8 +246,8 @@ def run(tier, seed):
             for q in oa:
                 if oa[q] != ob_[q]:
                     return ("violation", "%s: the node that applied the log one by one answers %s, the node that restarted behind request %d (start-up replay, load-complete) answers %s"
-                            % (q, oa[q], ra, ob_[q]), "mcp-state-differs", ra)
-            return ("ok", None, None, ra)
+                            % (q, oa[q], ra, ob_[q]) + (" [restart from a snapshot]" if snap else ""), "mcp-state-differs", ra, snap)
+            return ("ok", None, None, ra, snap)
 
         paths = it.explore(lambda: thunk() + (list(ops_box[0]),), max_paths=400000, stop=lambda r: r[0] == "violation")
         s = z3.Solver()
@@ -191,7 +257,7 @@ def run(tier, seed):
                 viol = {"message": "panic in the MCP component: %s" % exc, "tags": ["panic"], "model": {}}
                 break
             if r[0] == "violation":
-                viol = {"message": r[1], "tags": [r[2]], "model": {"ops": r[4], "restart_behind_request": r[3]}}
+                viol = {"message": r[1], "tags": [r[2]], "model": {"ops": r[5], "restart_behind_request": r[3], "restart_from_snapshot": bool(r[4])}}
                 break
         ob["queries"] = it.queries
         ob["solver_s"] = round(time.time() - t0, 1)
@@ -217,7 +283,7 @@ def run(tier, seed):
                 rnd = random.Random(seed)
                 cand = [r for pc, r, exc in paths if exc is None and r[0] == "ok"]
                 rnd.shuffle(cand)
-                hist = [{"ops": r[4], "restart_behind_request": r[3]} for r in cand[:25]]
+                hist = [{"ops": r[5], "restart_behind_request": r[3], "restart_from_snapshot": bool(r[4])} for r in cand[:25]]
                 val = native_histories("C07", "mcp", "validate", hist)
                 ob["translator_validation"] = {"outcome": val["outcome"], "histories": len(hist), "message": val["message"], "path": val["path"]}
                 if val["outcome"] != "passed":
